@@ -363,7 +363,8 @@ def permute_incidence_fixed_sums(incidence, k=1, seed=None):
     if not incidence.ndim == 2:
         raise ValueError("Incidence matrix must be 2D")
 
-    if incidence.min() != 0 or incidence.max() != 1:
+    if incidence.min() != 0 or incidence.max() != 1 or \
+            not ((incidence == 0) | (incidence == 1)).all():
         raise ValueError("Incidence matrix must be binary")
 
     prng = get_prng(seed)
